@@ -80,3 +80,16 @@ Proof.
   rewrite H1, H2, H3, H4, Ho'. reflexivity.
 Qed.
 Print Assumptions gro_holdsb_eligible_batches.
+
+(* the hypotheses are satisfiable by a batch on which TCP and UDP coalescing happens *)
+Definition bytes_okb (inp : list buf) : bool := forallb (fun b => forallb (fun x => x <? 256) (b_pkt b)) inp.
+Lemma bytes_okb_ok inp : bytes_okb inp = true -> bytes_ok inp.
+Proof.
+  unfold bytes_okb, bytes_ok. intros H b Hb x Hx. rewrite forallb_forall in H. specialize (H b Hb).
+  rewrite forallb_forall in H. apply N.ltb_lt. apply H. exact Hx.
+Qed.
+Lemma eligible_batches_nonvacuous :
+  preb 16 ex_mixed = true /\ bytes_okb ex_mixed = true /\
+  forallb (fun b => Check.keep_eligible (b_pkt b)) ex_mixed = true /\
+  existsb (fun j => v_gso (dec_vhdr (b_hdr (get_buf (s_bufs (run ex_mixed)) j))) =? GSO_UDP_L4) (s_tw (run ex_mixed)) = true.
+Proof. vm_compute. repeat split; reflexivity. Qed.
